@@ -20,6 +20,7 @@ pub fn opts() -> GenOpts {
     o.info = true;
     o.types = vec![Ty::Str, Ty::U32, Ty::Os];
     o.cmd_or_words = true;
+    o.adjacent_cmds = true;
     o
 }
 
@@ -54,6 +55,8 @@ struct Base {
     in_block: bool,
     /// item the mutation duplicated / dropped, if any
     item: Option<Id>,
+    /// index (in `units`) where the line was made invalid
+    at_unit: Option<usize>,
 }
 
 fn invalid_bases(units: &[U], rng: &mut Rng) -> Vec<Base> {
@@ -78,6 +81,7 @@ fn invalid_bases(units: &[U], rng: &mut Rng) -> Vec<Base> {
             depth: Some(u.depth),
             in_block: u.block.is_some(),
             item,
+            at_unit: Some(i),
         });
     }
     // duplicate a unit
@@ -96,6 +100,7 @@ fn invalid_bases(units: &[U], rng: &mut Rng) -> Vec<Base> {
             depth: Some(u.depth),
             in_block: u.block.is_some(),
             item,
+            at_unit: Some(i),
         });
     }
     // foreign flag
@@ -134,6 +139,7 @@ fn invalid_bases(units: &[U], rng: &mut Rng) -> Vec<Base> {
                 && units[i].block.is_some()
                 && units[i].block == units[i - 1].block,
             item: None,
+            at_unit: Some(i),
         });
     }
     // corrupt a numeric value
@@ -151,6 +157,7 @@ fn invalid_bases(units: &[U], rng: &mut Rng) -> Vec<Base> {
             depth: Some(m[i].depth),
             in_block: m[i].block.is_some(),
             item: None,
+            at_unit: Some(i),
             units: m,
             kind: "corrupted-number",
         });
@@ -184,6 +191,7 @@ pub fn run_case(case: &mut Case) {
             depth: None,
             in_block: false,
             item: None,
+            at_unit: None,
         }];
         bases.extend(invalid_bases(&units, &mut rng));
         // a duplicated member of a repeated/optional *group* is claimed by the group, which
@@ -214,16 +222,41 @@ pub fn run_case(case: &mut Case) {
                 }
                 // levels entered left of the insertion point
                 let mut path: Vec<(&OptSpec, Id)> = vec![(&b.spec, 0)];
+                // a chain of adjacent commands returns to the declaring level after each block:
+                // the depth of a unit tells which level it was written for. Right of an item of
+                // the declaring level that follows a block it depends on the declaration order
+                // whether the block's command still sees the help item: not decided here
+                let mut left_adjacent_block = false;
+                let mut adjacent_levels: Vec<bool> = vec![false];
+                let mut last_unit = usize::MAX;
                 for o in &line.origin[..at] {
-                    if o.role == Role::CmdName {
-                        if let UKind::CmdName { id, .. } = &base.units[o.unit].kind {
-                            let mut cmds = Vec::new();
-                            path.last().unwrap().0.root.level_cmds(&mut cmds);
-                            if let Some(c) = cmds.into_iter().find(|c| c.id == *id) {
-                                path.push((&c.opts, c.id));
-                            }
+                    if o.unit == last_unit {
+                        continue;
+                    }
+                    last_unit = o.unit;
+                    let u = &base.units[o.unit];
+                    if u.depth + 1 < path.len() {
+                        if adjacent_levels[u.depth + 1..].iter().any(|a| *a)
+                            && !matches!(u.kind, UKind::CmdName { .. })
+                        {
+                            left_adjacent_block = true;
+                        }
+                        path.truncate(u.depth + 1);
+                        adjacent_levels.truncate(u.depth + 1);
+                    }
+                    if let UKind::CmdName { id, .. } = &u.kind {
+                        left_adjacent_block = false;
+                        let mut cmds = Vec::new();
+                        path.last().unwrap().0.root.level_cmds(&mut cmds);
+                        if let Some(c) = cmds.into_iter().find(|c| c.id == *id) {
+                            path.push((&c.opts, c.id));
+                            adjacent_levels.push(c.adjacent);
                         }
                     }
+                }
+                if left_adjacent_block {
+                    case.rep.count("skipped:right-of-outer-item-after-adjacent-command-block");
+                    continue;
                 }
                 // an unclaimed item (foreign flag, surplus duplicate) left of a command name keeps
                 // that command from being entered: the innermost entered level is then the one
@@ -237,6 +270,27 @@ pub fn run_case(case: &mut Case) {
                     Some(d) if stray && d < path.len() - 1 => d,
                     _ => path.len() - 1,
                 };
+                // the block of an adjacent command ends where its parser stops consuming: a help
+                // item next to it is answered by the command or by the level that declares it
+                let floor = match adjacent_levels.iter().position(|a| *a) {
+                    Some(a) => floor.min(a.saturating_sub(1)),
+                    None => floor,
+                };
+                // the line was made invalid in an earlier block of the chain than the one the
+                // help item goes into
+                let ins_unit = line.origin.get(at).map_or(base.units.len(), |o| o.unit);
+                let earlier_block_invalid = base.at_unit.map_or(false, |iu| {
+                    // a dropped unit belonged to the block of the unit in front of it
+                    let iu = if base.kind == "dropped-unit" {
+                        iu.saturating_sub(1)
+                    } else {
+                        iu
+                    };
+                    (iu + 1..=ins_unit.min(base.units.len().saturating_sub(1))).any(|k| {
+                        matches!(&base.units[k].kind, UKind::CmdName { id, .. }
+                            if b.spec.root.find_cmd(*id).map_or(false, |c| c.adjacent))
+                    })
+                });
                 let (lvl, lvl_id) = *path.last().unwrap();
                 let depth = path.len() - 1;
                 if floor < depth {
@@ -347,6 +401,10 @@ pub fn run_case(case: &mut Case) {
                     // shows either as the enclosing field's error or as the enclosing level's
                     // help/version text
                     "enclosing-level-invalid".to_string()
+                } else if earlier_block_invalid {
+                    // `cmd1 <invalid> cmd2 --help`: the chain is evaluated block by block, the
+                    // earlier block answers with its own error or its own help
+                    "earlier-adjacent-command-invalid".to_string()
                 } else if matches!(out, Outcome::Stdout { .. }) {
                     "wrong-level:stdout".to_string()
                 } else if block_broken {
